@@ -17,7 +17,7 @@ CONFIG = dict(
         "replay-ring eviction is not modelled (harness bodies are 1 byte against a 64 MiB ring)",
     ],
     manifest=dict(
-        text="Lean 4 theorems over a transition-system model of TransferControl's mutex/condvar protocol (one waiter in wait_for_credit or wait_for_reconnect, any number of signalling threads, every interleaving = every event list, spurious wake-ups, environment-chosen deadline answers): every method branch that turns a wait condition from false to true reaches notify_all (wake_obligation, all states, both waits); the waiter is never parked while its condition holds (parked_implies_not_pred, invariant by induction over the event list); once the condition holds the waiter does not park again and its next pass returns the matching value (no_repark, progress, progress_maximal, return_sound); Timeout is returned only from a check that saw the deadline passed with the condition false, and is reached when the condition stays false (timeout_exact, timeout_reached, only_timeout_while_false). The notify table (per method: is notify_all reached, under which ifs) and the order of the tests in both wait loops are re-extracted from src/stream.rs on every run, so deleting or mis-guarding a notify_all or testing the deadline first breaks source_facts. Tied to the running code by family `wake`: real threads against the real TransferControl, waiter observed asleep via /proc before 1-3 ops from 1-3 threads, >=3000 (quick) / >=30000 (thorough) randomized schedules, outcome checked against the set of end states the model admits over all interleavings, plus direct oracles (condition true in the real final state => returned within 10 s; never Timeout before a far deadline; short-deadline waits return Timeout not before the deadline).",
+        text="Lean 4 theorems over a transition-system model of TransferControl's mutex/condvar protocol (one waiter in wait_for_credit or wait_for_reconnect, any number of signalling threads, every interleaving = every event list, spurious wake-ups, environment-chosen deadline answers): every method branch that turns a wait condition from false to true reaches notify_all (wake_obligation, all states, both waits); the waiter is never parked while its condition holds (parked_implies_not_pred, invariant by induction over the event list); once the condition holds the waiter does not park again and its next pass returns the matching value (no_repark, progress, progress_maximal, return_sound); Timeout is returned only from a check that saw the deadline passed with the condition false, and is reached when the condition stays false (timeout_exact, timeout_reached, only_timeout_while_false). The notify table (per method: is notify_all reached, under which ifs), the order of the tests in both wait loops and whether each loop holds the mutex without a gap from its tests to wait_timeout are re-extracted from src/stream.rs on every run, so deleting or mis-guarding a notify_all, testing the deadline first or dropping the lock between check and park breaks source_facts. Tied to the running code by family `wake`: real threads against the real TransferControl, waiter observed asleep via /proc before 1-3 ops from 1-3 threads, >=3000 (quick) / >=100000 (thorough) randomized schedules plus 30000 / 400000 fast entry-race rounds (waiter and signaller released together, start offset swept) and trickle cases (a steady stream of non-enabling wake-ups must not postpone the Timeout), outcome checked against the set of end states the model admits over all interleavings, plus direct oracles (condition true in the real final state => returned within 10 s; never Timeout before a far deadline; short-deadline waits return Timeout not before the deadline).",
         note="Lean kernel; axioms propext/Classical.choice/Quot.sound only; std Mutex/Condvar and the scheduler are trusted as modelled; single waiter; durations not modelled (measured one-sidedly by the harness); values < 2^64 without wrap-around (F3 belongs to C11).",
         technique="Lean 4 proof (invariant over all interleavings of a condvar protocol model) + regenerated notify/loop facts + threaded differential correspondence"),
 )
